@@ -270,9 +270,19 @@ def shape_of(txt, classes):
 
 
 def objdump_to_gas(t):
-    """objdump's Intel text as GNU as input (relative branch targets are printed as absolute addresses of the slot: not re-assembled)"""
+    """objdump's Intel text as GNU as input; 'nop' (never equal to the original bytes) when objdump had to print a prefix as a word of
+    its own (data16, addr16, a segment name ...): such a prefix is meaning-free there, the encoding is not canonical"""
     import re
     t = re.sub(r'\s*[#<].*$', '', t).strip()
+    words = t.split()
+    while words and words[0] in OD.PREFIX_WORDS:
+        words = words[1:]
+    if words and words[0] in OD.SUPERFLUOUS:
+        return 'nop'
+    if any(w in OD.SUPERFLUOUS for w in t.split()[:3] if not w.endswith(',')) and t.split()[0] in OD.SUPERFLUOUS | OD.PREFIX_WORDS:
+        # e.g. 'repz data16 ...'
+        if any(w in OD.SUPERFLUOUS for w in t.split()[:3]):
+            return 'nop'
     return t
 
 
